@@ -242,6 +242,7 @@ package coregex
 //@ uninterpreted spec func anyJ() int
 //@ func (*Regex).ReplaceAllLiteral
 //@   props C08 C07
+//@   opt timeout_factor=4
 //@   requires regexOK(r) && len(src) <= 140737488355328
 //@   modifies @searchState
 //@   ensures len(result) == rlen(r.engine, r.engine.longest, src, 0, false, 0, len(repl))
@@ -254,6 +255,7 @@ package coregex
 //@   ensures 0 <= anyJ() && anyJ() < len(result) ==> result[anyJ()] == rbyte(r.engine, r.engine.longest, src, repl, 0, false, 0, anyJ())
 //@   loop 1: invariant 0 <= anyJ() ==> rbyte(r.engine, r.engine.longest, src, repl, 0, false, 0, anyJ()) == ite(anyJ() < len(result), result[anyJ()], rbyte(r.engine, r.engine.longest, src, repl, pos, lastMatchEnd == pos, lastEnd, anyJ() - len(result)))
 //@   after call FindIndicesAt: (lastcall2 && anyJ() >= len(result)) ==> rbyte(r.engine, r.engine.longest, src, repl, pos, lastMatchEnd == pos, lastEnd, (anyJ() - len(result))) == ite(lastcall0 == lastcall1 && lastcall0 == lastMatchEnd, rbyte(r.engine, r.engine.longest, src, repl, nextPos(src, pos), false, lastEnd, (anyJ() - len(result))), ite((anyJ() - len(result)) < lastcall0 - lastEnd, src[lastEnd + (anyJ() - len(result))], ite((anyJ() - len(result)) < lastcall0 - lastEnd + len(repl), repl[(anyJ() - len(result)) - (lastcall0 - lastEnd)], rbyte(r.engine, r.engine.longest, src, repl, ite(lastcall0 == lastcall1, nextPos(src, lastcall1), lastcall1), lastcall0 != lastcall1, lastcall1, (anyJ() - len(result)) - (lastcall0 - lastEnd) - len(repl)))))
+//@   loop 1: exit 0 <= anyJ() ==> rbyte(r.engine, r.engine.longest, src, repl, 0, false, 0, anyJ()) == ite(anyJ() < len(result), result[anyJ()], rbyte(r.engine, r.engine.longest, src, repl, pos, lastMatchEnd == pos, lastEnd, anyJ() - len(result)))
 //@   loop 1: exit 0 <= anyJ() ==> rbyte(r.engine, r.engine.longest, src, repl, 0, false, 0, anyJ()) == ite(anyJ() < len(result), result[anyJ()], src[lastEnd + anyJ() - len(result)])
 //@   loop 1: invariant !matched ==> pos == 0 && lastEnd == 0 && len(result) == 0 && lastMatchEnd == -1
 //@   loop 1: invariant matched ==> refFound(r.engine, r.engine.longest, src, 0) && fresh(result)
